@@ -282,6 +282,32 @@ def spec (s w : Shape) (st pad dil : IntOrList) (transposed : Bool) (outPad : Li
 
 end conv
 
+namespace convnd
+
+/-- `aten_conv1d` / `aten_conv2d` / `aten_conv3d` with `bias=None`: the zero bias is `Expand(0, Expand(Shape(weight)[0:1], [1]))` = `[O]`
+(conv3d built `[O, 2]` before fix 0fc3090). -/
+def biasShape (_imageD : Nat) (w : Shape) : Shape := [w.getD 0 0]
+
+def biasTerm (_imageD : Nat) : String :=
+  let w0 := tOp "Shape" ["x1"] [("end", "1"), ("start", "0")]
+  tOp "Expand" [tOp "CastLike" ["0.0:FLOAT", "x0"], tOp "Expand" [w0, "[1]"]]
+
+/-- ONNX `Conv` needs a 1-D bias of size `O`; everything else is `aten_convolution`'s non-transposed path with full-length lists. -/
+def model (s w : Shape) (hasBias : Bool) (st pad dil : List Int) (groups : Nat) : Option Shape :=
+  let b := if hasBias then [w.getD 0 0] else biasShape (s.length - 2) w
+  if b ≠ [w.getD 0 0] then none else conv.model s w (.list st) (.list pad) (.list dil) false [] groups
+
+def term (s w : Shape) (hasBias : Bool) (st pad dil : List Int) (groups : Nat) : String :=
+  let kernel := (w.drop 2).map (Int.ofNat ·)
+  tOp "Conv" ["x0", "x1", if hasBias then "x2" else biasTerm (s.length - 2)] [("auto_pad", "NOTSET"), ("dilations", tIL dil),
+    ("group", toString groups), ("kernel_shape", tIL kernel), ("pads", tIL (pad ++ pad)), ("strides", tIL st)]
+
+/-- `torch.nn.functional.conv{1,2,3}d(x, w, bias?, stride, padding, dilation, groups)`: the bias does not change the shape. -/
+def spec (s w : Shape) (st pad dil : List Int) (groups : Nat) : Option Shape :=
+  conv.spec s w (.list st) (.list pad) (.list dil) false [] groups
+
+end convnd
+
 namespace pad
 
 /-- `Pad(x, pads)` with the layout of `padLayout`: axis `i` grows by `pads[i] + pads[i + rank]`. -/
